@@ -51,6 +51,7 @@ structure St where
   counters : List (Nat × Nat)                -- crls/config: issuer ↦ next CRL number
   crls : List (Nat × (Nat × List Nat))       -- served complete CRL per issuer: (number, serials)
   deltas : List Nat                          -- issuers that have a stored delta CRL
+  issuerSerial : List (Nat × Nat)            -- (issuer i, certificate k): i's OWN certificate carries k's serial number
   cfg : Cfg
   now : Nat
   log : List Ev
@@ -58,7 +59,7 @@ structure St where
 
 def init : St :=
   { nIssuers := 0, issuers := [], dflt := none, certs := [], stored := [], revoked := [], stamps := 0,
-    counters := [], crls := [], deltas := [], cfg := ⟨false, false, false⟩, now := 100, log := [] }
+    counters := [], crls := [], deltas := [], issuerSerial := [], cfg := ⟨false, false, false⟩, now := 100, log := [] }
 
 /-- safety buffer the harness passes to tidy (seconds) -/
 def tidyBuffer : Nat := 1
@@ -66,6 +67,7 @@ def tidyBuffer : Nat := 1
 inductive Step where
   | addIssuer (i : Nat)
   | delIssuer (i : Nat)
+  | noteSerial (i k : Nat)
   | addCert (c : Cert) (stored : Bool)
   | tick (d : Nat)
   | putCert (k : Nat)
@@ -95,6 +97,11 @@ def assigned (s : St) (k : Nat) : Option Nat :=
   | none => none
   | some c => if c.issuer ∈ s.issuers then some c.issuer else s.dflt
 
+/-- content of issuer `i`'s CRL: the revoked certificates ASSOCIATED with `i`.  `getLocalRevokedCertEntries` skips a
+    `revoked/` entry only when it is byte-for-byte one of the issuers' own certificates; the certificates of this
+    table are never issuer certificates, so the skip never applies to them — in particular not when a (later
+    imported) issuer's own certificate merely shares a serial number with one of them: `issuerSerial` is not
+    consulted here. -/
 def crlSerials (s : St) (i : Nat) : List Nat :=
   (s.revoked.map Prod.fst).filter (fun k => assigned s k == some i)
 
@@ -106,6 +113,7 @@ def applyStep (s : St) : Step → St
                              dflt := match s.dflt with | none => some i | some d => some d }
   | .delIssuer i => { s with issuers := s.issuers.filter (· != i),
                              dflt := if s.dflt = some i then none else s.dflt }
+  | .noteSerial i k => { s with issuerSerial := (i, k) :: s.issuerSerial }
   | .addCert c st => { s with certs := s.certs ++ [c],
                               stored := if st then s.certs.length :: s.stored else s.stored }
   | .tick d => { s with now := s.now + d }
@@ -148,9 +156,14 @@ inductive Res where
   | expired
   | notFound
   | noSigner
+  | isIssuer
   | noIssuer
   | badOp
   deriving DecidableEq, Repr
+
+/-- some present issuer's own certificate has the serial number of certificate `k` (`revokeCert` then refuses:
+    "adding issuer to its own CRL is not allowed" — its guard compares serial numbers only) -/
+def collides (s : St) (k : Nat) : Bool := s.issuerSerial.any (fun p => p.2 == k && p.1 ∈ s.issuers)
 
 /-- revoke-by-certificate stores a presented certificate the mount does not have yet -/
 def revokePre (s : St) (k : Nat) (byCert : Bool) : List Step :=
@@ -166,6 +179,7 @@ def revokeProg (s : St) (k : Nat) (byCert : Bool) (o1 o2 : List Nat) : List Step
     if !byCert && !(k ∈ s.stored) then ([], .notFound) else
     if byCert && !(k ∈ s.stored) && !(c.issuer ∈ s.issuers) then ([], .noSigner) else
     let pre := revokePre s k byCert
+    if collides s k then (pre, .isIssuer) else
     match s.revoked.lookup k with
     | some t =>
       if s.cfg.autoRebuild then (pre, .revoked t)
@@ -249,6 +263,18 @@ def addIssuerProg (s : St) (o1 o2 : List Nat) : List Step × Res :=
       [Step.putCounters (s.counters.filter fun p => p.1 ∈ s.issuers)] else []
   ([Step.addIssuer i] ++ pre ++ rebuildSteps (applySteps s1 pre) true o1 o2, .okIssuer i)
 
+/-- `issuers/import/bundle` of an externally built CA certificate with its key.  `col = some k`: the CA's own
+    certificate was given the serial number of certificate `k` by its external parent (a bookkeeping step of the
+    model, not a write).  Otherwise exactly like `root/generate`: nothing in the revocation store changes, the new
+    issuer becomes the default when there is none, and all CRLs are rebuilt with `forceNew`. -/
+def importIssuerProg (s : St) (col : Option Nat) (o1 o2 : List Nat) : List Step × Res :=
+  match col with
+  | none => addIssuerProg s o1 o2
+  | some k =>
+    if s.certs.length ≤ k then ([], .badOp) else
+    (Step.noteSerial (s.nIssuers + 1) k :: (addIssuerProg (applyStep s (.noteSerial (s.nIssuers + 1) k)) o1 o2).1,
+     .okIssuer (s.nIssuers + 1))
+
 /-- `DELETE issuer/:ref` (an unknown reference is answered as if it had been deleted) -/
 def delIssuerProg (s : St) (i : Nat) (o1 o2 : List Nat) : List Step × Res :=
   if !(i ∈ s.issuers) then ([], .ok) else
@@ -260,12 +286,12 @@ def issueProg (s : St) (i ttl : Nat) : List Step × Res :=
   if !(i ∈ s.issuers) then ([], .noIssuer)
   else ([Step.addCert ⟨i, s.now + ttl⟩ true], .okCert s.certs.length)
 
-/-- a certificate signed with issuer `i`'s key outside the mount, already expired (`NotAfter = now - 3600`; the
+/-- a certificate signed with issuer `i`'s key outside the mount, valid for an hour or already expired (`NotAfter = now - 3600`; the
     model clock starts at 100, so the truncated subtraction gives 0 — still more than the tidy buffer in the past),
     unknown to the mount until it is presented to `revoke` -/
-def craftProg (s : St) (i : Nat) : List Step × Res :=
+def craftProg (s : St) (i : Nat) (valid : Bool) : List Step × Res :=
   if i = 0 ∨ s.nIssuers < i then ([], .noIssuer)
-  else ([Step.addCert ⟨i, s.now - 3600⟩ false], .okCert s.certs.length)
+  else ([Step.addCert ⟨i, if valid then s.now + 3600 else s.now - 3600⟩ false], .okCert s.certs.length)
 
 /-! ### requests, executions, histories -/
 
@@ -273,7 +299,8 @@ inductive Op where
   | addIssuer
   | delIssuer (i : Nat)
   | issue (i ttl : Nat)
-  | craft (i : Nat)
+  | craft (i : Nat) (valid : Bool)
+  | importIssuer (col : Option Nat)
   | revoke (k : Nat) (byCert : Bool)
   | rotate
   | tidy (cs rc assoc : Bool)
@@ -290,7 +317,8 @@ def prog (s : St) (o1 o2 : List Nat) : Op → List Step × Res
   | .addIssuer => addIssuerProg s o1 o2
   | .delIssuer i => delIssuerProg s i o1 o2
   | .issue i ttl => issueProg s i ttl
-  | .craft i => craftProg s i
+  | .craft i v => craftProg s i v
+  | .importIssuer col => importIssuerProg s col o1 o2
   | .revoke k byCert => revokeProg s k byCert o1 o2
   | .rotate => (rebuildSteps s false o1 o2, .ok)
   | .tidy cs rc assoc => (tidyProg s cs rc assoc o1 o2, .ok)
